@@ -194,6 +194,7 @@ func checkC19(ctx *Ctx, r *Report) {
 		c19CheckFunc(ctx, r, o, f.fd, f.obj)
 		c19ZeroValueAndEquality(ctx, r, o, f.fd, f.obj)
 		c19SecondHunt(ctx, r, o, f.fd, f.obj)
+		c19ThirdHunt(ctx, r, o, f.fd, f.obj)
 	}
 	r.Floor("orderedmap functions", 12)
 	r.Floor("loops of the ordered map that call a callback", 1)
@@ -243,6 +244,11 @@ func c19CheckFunc(ctx *Ctx, r *Report, o *omapInfo, fd *ast.FuncDecl, obj *types
 			return false
 		}
 		id, ok := ast.Unparen(sel.X).(*ast.Ident)
+		return ok && recvObj != nil && objOf(info, id) == recvObj
+	}
+
+	isRecvIdent := func(e ast.Expr) bool {
+		id, ok := ast.Unparen(e).(*ast.Ident)
 		return ok && recvObj != nil && objOf(info, id) == recvObj
 	}
 
@@ -800,8 +806,19 @@ func c19CheckFunc(ctx *Ctx, r *Report, o *omapInfo, fd *ast.FuncDecl, obj *types
 	// ---- Len
 	if isMethod && o.lenFn != nil && obj == o.lenFn {
 		ok := false
-		if len(fd.Body.List) == 1 {
-			if rs, isRet := fd.Body.List[0].(*ast.ReturnStmt); isRet && len(rs.Results) == 1 {
+		body := fd.Body.List
+		// a leading `if recv == nil { return 0 }`: a nil map has no live key
+		if len(body) == 2 {
+			if is, isIf := body[0].(*ast.IfStmt); isIf && is.Init == nil && is.Else == nil && len(is.Body.List) == 1 {
+				if be, isBin := ast.Unparen(is.Cond).(*ast.BinaryExpr); isBin && be.Op == token.EQL && exprString(be.Y) == "nil" && isRecvIdent(be.X) {
+					if rs, isRet := is.Body.List[0].(*ast.ReturnStmt); isRet && len(rs.Results) == 1 && exprString(rs.Results[0]) == "0" {
+						body = body[1:]
+					}
+				}
+			}
+		}
+		if len(body) == 1 {
+			if rs, isRet := body[0].(*ast.ReturnStmt); isRet && len(rs.Results) == 1 {
 				if c, isCall := rs.Results[0].(*ast.CallExpr); isCall && isBuiltinCall(info, c, "len") && (o.isOrd(c.Args[0]) || o.isRec(c.Args[0])) && onRecv(c.Args[0]) {
 					ok = true
 				}
@@ -1312,4 +1329,77 @@ func c19SecondHunt(ctx *Ctx, r *Report, o *omapInfo, fd *ast.FuncDecl, obj *type
 		r.Check(null, "omap/decode-null", name+" accepts null", fd.Pos(), "the JSON literal null is handled",
 			"UnmarshalJSON demands `{`: it rejects null, which is what a nil map is encoded to and what encoding/json hands to a custom decoder for a null value — `\"Objects\": null` can not be read back")
 	}
+}
+
+// c19ThirdHunt: (a) a nil *Map is what a map encoded as `null` is decoded to (encoding/json leaves the pointer nil): it
+// reads as an empty map, as a nil Go map does. Every method with a pointer receiver that touches the fields of the
+// receiver tests it against nil before the first access; the methods that have to write into the receiver (a nil Go map
+// panics on a write too) and the positional accessor are reviewed exceptions. (b) Equal compares values of any type: the
+// go-cmp call is given options (go-cmp panics on unexported fields otherwise).
+func c19ThirdHunt(ctx *Ctx, r *Report, o *omapInfo, fd *ast.FuncDecl, obj *types.Func) {
+	info := o.info
+	sig, _ := obj.Type().(*types.Signature)
+	if sig == nil || sig.Recv() == nil {
+		return
+	}
+	if nt := namedOf(sig.Recv().Type()); nt == nil || nt.Origin() != o.mapT {
+		return
+	}
+	name := "orderedmap.Map." + obj.Name()
+	_, ptr := sig.Recv().Type().(*types.Pointer)
+	if ptr && len(fd.Recv.List) == 1 && len(fd.Recv.List[0].Names) == 1 {
+		recvObj := info.Defs[fd.Recv.List[0].Names[0]]
+		reviewed := map[string]string{
+			"Set":           "writes into the receiver: a nil Go map panics on a write too",
+			"UnmarshalJSON": "writes into the receiver; encoding/json allocates the pointer before it calls the method",
+			"At":            "positional access: an index into an empty map is out of range whatever the receiver",
+		}
+		var firstAccess, guard token.Pos
+		ast.Inspect(fd.Body, func(n ast.Node) bool {
+			switch x := n.(type) {
+			case *ast.SelectorExpr:
+				if id, ok := ast.Unparen(x.X).(*ast.Ident); ok && objOf(info, id) == recvObj {
+					if _, isField := info.Selections[x]; isField && info.Selections[x].Kind() == types.FieldVal && !firstAccess.IsValid() {
+						firstAccess = x.Pos()
+					}
+				}
+			case *ast.IfStmt:
+				if be, ok := ast.Unparen(x.Cond).(*ast.BinaryExpr); ok && (be.Op == token.EQL || be.Op == token.LOR) {
+					ast.Inspect(be, func(k ast.Node) bool {
+						if b2, ok := k.(*ast.BinaryExpr); ok && b2.Op == token.EQL && exprString(b2.Y) == "nil" {
+							if id, ok := ast.Unparen(b2.X).(*ast.Ident); ok && objOf(info, id) == recvObj && !guard.IsValid() && endsInExit(x.Body) {
+								guard = x.Pos()
+							}
+						}
+						return true
+					})
+				}
+			}
+			return true
+		})
+		if firstAccess.IsValid() {
+			r.Count("methods of the ordered map reading the receiver's fields", 1)
+			if why, ok := reviewed[obj.Name()]; ok {
+				r.OK("omap/nil-receiver-reads-empty", name, fd.Pos(), "reviewed: "+why)
+			} else {
+				r.Check(guard.IsValid() && guard < firstAccess, "omap/nil-receiver-reads-empty", name, fd.Pos(), "the receiver is tested against nil before its fields are read",
+					name+" reads the fields of its receiver without testing it: a map encoded as `null` is decoded to a nil *Map (`\"Objects\": null`), and "+obj.Name()+" on it panics with a nil pointer dereference — a nil Go map reads as empty")
+			}
+		}
+	}
+	// (b)
+	ast.Inspect(fd.Body, func(n ast.Node) bool {
+		c, ok := n.(*ast.CallExpr)
+		if !ok {
+			return true
+		}
+		f := callee(info, c)
+		if f == nil || f.Pkg() == nil || !strings.HasSuffix(f.Pkg().Path(), "go-cmp/cmp") || f.Name() != "Equal" {
+			return true
+		}
+		r.Count("value comparisons of the ordered map", 1)
+		r.Check(len(c.Args) > 2, "omap/equal-handles-any-value", name+" compares values", c.Pos(), "go-cmp is told what to do with unexported fields",
+			name+" calls cmp.Equal without options: for a value type with unexported fields (a struct, a Map held by value) go-cmp panics `cannot handle unexported field` — Equal panics whether the contents are equal or not")
+		return true
+	})
 }
